@@ -105,6 +105,10 @@ func (pe *propertiesEncoder) doEncode(p *properties.Properties, node *CandidateN
 	case MappingNode:
 		return pe.encodeMap(p, node.Content, path)
 	case AliasNode:
+		if node.Alias == nil {
+			// an alias made by `alias = "name"` has a name only
+			return fmt.Errorf("alias '%v' does not point to an anchor", node.Value)
+		}
 		return pe.doEncode(p, node.Alias, path, nil)
 	default:
 		return fmt.Errorf("Unsupported node %v", node.Tag)
